@@ -748,7 +748,8 @@ class StretchyTreeMatcher:
             std_field = stdTup[0]
             std_value = stdTup[1]
 
-            if ins_value is None:
+            if ins_value is None and not (ins_field == "value" and isinstance(ins, ast.Constant)):
+                # An absent optional child matches anything; the literal None is content
                 continue
 
             ignore_field = ins_field in ignores
